@@ -3,11 +3,11 @@
 # applies the patch in a scratch worktree of /repo (never in /repo itself), runs the check against it, removes the worktree
 set -u
 patch="$1"; prop="$2"; tier="${3:-quick}"; shift 3 2>/dev/null || shift $#
-[ -f "$patch" ] || patch=/verif/seeded/$patch/patch.diff
+[ -f "$patch" ] || patch="$(dirname "$(readlink -f "$0")")/../seeded/$patch/patch.diff"
 WT=/tmp/wt-try-$$
 git -C /repo worktree add -q --detach $WT HEAD || exit 9
 (cd $WT && git apply "$patch") || { echo "patch does not apply"; git -C /repo worktree remove --force $WT; exit 9; }
-cd /verif
+cd "$(dirname "$(readlink -f "$0")")/.."
 VERIF_REPO=$WT ./check "$prop" --tier "$tier" --no-evidence "$@"
 rc=$?
 git -C /repo worktree remove --force $WT
